@@ -43,7 +43,7 @@ CHECKS = {
     ),
     "C06": dict(
         level="exploration",
-        required_probes=['complete_iteration_checked', 'partial_iteration_checked', 'randomised_run', 'randomised_restart_inside_iteration', 'partition_symclass_1', 'balanced_true_checked', 'balanced_false_checked', 'processed_forward_projector', 'processed_back_projector', 'processed_objective_function', 'processed_fbp2d'],
+        required_probes=['complete_iteration_checked', 'partial_iteration_checked', 'randomised_run', 'randomised_restart_inside_iteration', 'partition_symclass_1', 'balanced_true_checked', 'balanced_false_checked', 'processed_forward_projector', 'processed_back_projector', 'processed_objective_function', 'processed_fbp2d', 'processed_tof_sensitivities', 'processed_with_normalisation'],
         parts=[dict(harness="chk_C06", variant="seq", src="checks/chk_C06.cpp",
                     runs=dict(quick=8000, thorough=400000), wall_cap=dict(quick=150, thorough=2400))],
         rule=("one case = one generated plan of one of four kinds: (schedule) a real OSMAPOSL or OSSPS reconstruct() loop on a tiny "
@@ -145,7 +145,7 @@ CHECKS = {
     ),
     "C17": dict(
         level="fault_enumeration",
-        required_probes=['round_trip_fixed_point', 'damaged_text_accepted_consistent', 'damaged_text_rejected', 'damaged_header_rejected', 'damaged_header_accepted_consistent', 'non_default_object_round_trip', 'keyparser_rules_checked', 'case_whitespace_variant_checked', 'siemens_sinogram_header_checked', 'spect_header_checked', 'listmode_header_checked', 'multi_header_checked'],
+        required_probes=['round_trip_fixed_point', 'damaged_text_accepted_consistent', 'damaged_text_rejected', 'damaged_header_rejected', 'damaged_header_accepted_consistent', 'non_default_object_round_trip', 'keyparser_rules_checked', 'case_whitespace_variant_checked', 'siemens_sinogram_header_checked', 'spect_header_checked', 'listmode_header_checked', 'multi_header_checked', 'siemens_tof_sinogram_header_checked', 'keyword_with_tab_between_words'],
         parts=[dict(harness="chk_C17", variant="seq", src="checks/chk_C17.cpp", extra_rt=["simalloc"],
                     runs=dict(quick=1088, thorough=68000), wall_cap=dict(quick=220, thorough=2400))],
         rule=("one case = one text or header and one fault class whose positions are enumerated completely: (registry) the parameter "
